@@ -5,8 +5,9 @@ Sources (parsed with `ast`, never imported):
   maestrowf/specification/yamlspecification.py   verify, verify_description,
         verify_environment, _verify_variables, _verify_sources,
         _verify_dependencies, verify_study, _verify_steps, verify_parameters,
-        validate_schema (shape), the `name` property, get_study_environment,
-        get_parameters, get_study_steps
+        validate_schema (shape), the `name` property, __init__,
+        load_specification_from_stream, get_study_environment, get_parameters,
+        get_study_steps
   maestrowf/datastructures/core/study.py          SOURCE, ALL_COMBOS,
         StudyStep.__init__ / name / real_name, Study.add_step
   maestrowf/datastructures/dag.py                 add_node, the guards of add_edge
@@ -63,6 +64,7 @@ list_append dict_pop for_in for_items iter_errors stepobj new_StudyStep step_set
 run_setitem step_real_name run_contains run_getitem apply_environment re_sub_all_combos envobj is_Dependency
 is_Substitution is_Source item_name opt_truthy opt_mem names_add new_Variable new_Script new_PathDependency
 new_GitDependency new_StudyEnvironment new_ParameterGenerator DESCRIPTION ENV STUDY_STEP PARAM
+dict_pop_default spec_set_description spec_set_environment spec_set_study spec_set_globals
 """.split())
 
 SCHEMA_NAMES = ("DESCRIPTION", "ENV", "STUDY_STEP", "PARAM")
@@ -73,7 +75,7 @@ INTERNAL_CLASSES = ("TypeError", "KeyError", "AttributeError", "IndexError", "Ru
 COQ_TYPES = {
     "jv": "jv", "str": "str", "sset": "list str", "int": "Z", "schema": "schema", "step": "stepobj",
     "steps": "list stepobj", "env": "list str", "envobj": "envobj", "pgen": "Z", "unit": "unit",
-    "strlist": "list str", "jvset": "list jv", "optstr": "option str",
+    "strlist": "list str", "jvset": "list jv", "optstr": "option str", "specrec": "spec",
 }
 
 
@@ -461,7 +463,7 @@ def cond(cx, e, pre):
         acc = cond(cx, e.values[0], pre)
         for v in e.values[1:]:
             sub = []
-            c2 = cx.fork() if True else cx
+            c2 = cx.fork()
             t = cond(c2, v, sub)
             if not sub:
                 acc = "%s %s %s" % (atom(acc) if (" || " in acc or " && " in acc) else acc,
@@ -732,8 +734,6 @@ def block(cx, stmts, ind, k):
         body = transparent_try(cx, st)
         if body is None:
             cx.bad(st, "only `try: ... except Exception as e: <log>; raise` is translated")
-        if not terminates(body) and escapes(body) and rest:
-            pass
         return block(cx, body + rest, ind, k)
 
     # --- if ----------------------------------------------------------------------
@@ -747,8 +747,6 @@ def block(cx, stmts, ind, k):
             b = block(ce, b_stmts, ind + (0 if tb else 1), k)
             if tb and len(a) == 1:
                 return out(pre, [pad + "if %s then %s else" % (c, a[0].strip())] + b)
-            if tb:
-                return out(pre, [pad + "if %s then" % c] + a + [pad + "else"] + b)
             return out(pre, [pad + "if %s then" % c] + a + [pad + "else"] + b)
         # a join over the locals the branches re-bind
         if escapes(list(st.body) + list(st.orelse)):
@@ -1133,8 +1131,7 @@ def gen_spec_method(fn, name):
         body = body[4:]
         cx.vars["schemas"] = "schemas"
     lines = block(cx, body, 1, ("fn",))
-    if cx.sh.site != len(cx.frame.sites):
-        pass        # fewer sites than labels: a guard is gone; the text (and the tie lemma) shows it
+    # fewer sites than labels: a guard is gone; the text (and the tie lemma) shows it
     sig = "".join(" (%s : %s)" % (G(p), COQ_TYPES[s_]) for p, s_ in zip(pnames[1:], sorts))
     return definition("YAMLSpecification.%s" % name,
                       "Definition %s (sp : spec)%s : res %s :=" % (gen, sig, atom(COQ_TYPES[ret])), lines)
@@ -1193,6 +1190,115 @@ def gen_name_property(ms, cls):
             cx.bad(n, "the name property reads itself")
     lines = block(cx, fn.body, 1, ("fn",))
     return definition("YAMLSpecification.name (property)", "Definition name_gen (sp : spec) : res jv :=", lines)
+
+
+# ----------------------------------------------------------------------------
+# YAMLSpecification.__init__ / load_specification_from_stream
+# ----------------------------------------------------------------------------
+SPEC_SETTERS = {"description": "spec_set_description", "environment": "spec_set_environment",
+                "study": "spec_set_study", "globals": "spec_set_globals"}
+SPEC_UNMODELLED = ("path", "batch")
+
+LOAD_TRY = """try:
+    spec = yaml.load(stream, yaml.FullLoader)
+except AttributeError:
+    logger.warning("x")
+    spec = yaml.load(stream)
+"""
+
+
+def literal(cx, e):
+    """a default value written as a display -> jv literal"""
+    if isinstance(e, ast.Dict) and all(isinstance(k_, ast.Constant) and isinstance(k_.value, str) for k_ in e.keys):
+        return "JObj [%s]" % "; ".join("(%s, %s)" % (coq_string(k_, k_.value), literal(cx, v_))
+                                       for k_, v_ in zip(e.keys, e.values))
+    if isinstance(e, ast.List):
+        return "JArr [%s]" % "; ".join(literal(cx, x) for x in e.elts)
+    if isinstance(e, ast.Constant) and isinstance(e.value, str):
+        return "JStr %s" % ("[]" if e.value == "" else coq_string(e, e.value))
+    if isinstance(e, ast.Constant) and e.value is None:
+        return "JNull"
+    cx.bad(e, "default value `%s`" % src_of(e))
+
+
+class LoadFrame(Frame):
+    def __init__(self):
+        Frame.__init__(self, ["DTop"])
+
+    def call(self, cx, e, pre):
+        f = e.func
+        # spec.pop(key, default) on the mapping the loader returned
+        if isinstance(f, ast.Attribute) and f.attr == "pop" and isinstance(f.value, ast.Name) and \
+                f.value.id in cx.copies and cx.vars.get(f.value.id) == "jv" and len(e.args) == 2 and not e.keywords:
+            x = f.value.id
+            k_, sk = ex(cx, e.args[0], pre)
+            if sk != "str":
+                cx.bad(e, "pop of a non-constant key")
+            d = literal(cx, e.args[1])
+            v = cx.fresh()
+            pre.append("'(%s, %s) <- dict_pop_default %s %s %s ;;" % (v, G(x), G(x), atom(k_), atom(d)))
+            cx.forget(x)
+            return v, "jv"
+        if isinstance(f, ast.Name) and f.id == "cls" and not e.args and not e.keywords:
+            return "new_specification_gen", "specrec"
+        if isinstance(f, ast.Attribute) and isinstance(f.value, ast.Name) and \
+                cx.vars.get(f.value.id) == "specrec" and f.attr == "verify" and not e.args and not e.keywords:
+            return bind(cx, pre, "verify_gen %s" % G(f.value.id), cse=False), "unit"
+        return None
+
+    def stmt(self, cx, st, pre):
+        if isinstance(st, ast.Assign) and len(st.targets) == 1 and isinstance(st.targets[0], ast.Attribute) and \
+                isinstance(st.targets[0].value, ast.Name) and cx.vars.get(st.targets[0].value.id) == "specrec":
+            x, a = st.targets[0].value.id, st.targets[0].attr
+            v, sv = ex(cx, st.value, pre)
+            if a in SPEC_UNMODELLED:
+                return []
+            if a not in SPEC_SETTERS:
+                cx.bad(st, "store into YAMLSpecification.%s" % a)
+            cx.define(st, x, "specrec")
+            pre.append("let %s := %s %s %s in" % (G(x), SPEC_SETTERS[a], atom(to_jv(cx, st.value, v, sv)), G(x)))
+            return [x]
+        return None
+
+
+def gen_load(ms, cls):
+    init = need(SRC_SPEC, cls, ms, "__init__")
+    params(SRC_SPEC, init, ["self"])
+    cx0 = Cx(SRC_SPEC, init, Frame())
+    fields = {}
+    for st in init.body:
+        if is_doc(st):
+            continue
+        if not (isinstance(st, ast.Assign) and len(st.targets) == 1 and self_attr(st.targets[0])):
+            cx0.bad(st, "`%s`" % src_of(st))
+        fields[st.targets[0].attr] = literal(cx0, st.value)
+    if sorted(fields) != sorted(list(SPEC_SETTERS) + list(SPEC_UNMODELLED)):
+        cx0.bad(init, "the attributes of a specification changed: %s" % sorted(fields))
+    d0 = definition("YAMLSpecification.__init__",
+                    "Definition new_specification_gen : spec :=",
+                    ["  {| sp_desc := %s; sp_env := %s; sp_study := %s; sp_globals := %s |}" % (
+                        fields["description"], fields["environment"], fields["study"], fields["globals"])])
+    fn = need(SRC_SPEC, cls, ms, "load_specification_from_stream")
+    params(SRC_SPEC, fn, ["cls", "stream"], ["classmethod"])
+    body = [x for x in fn.body if not is_doc(x)]
+    cx = Cx(SRC_SPEC, fn, LoadFrame())
+    first = body[0] if body else None
+    want = ast.parse(LOAD_TRY).body[0]
+    ok = isinstance(first, ast.Try) and not first.orelse and not first.finalbody and len(first.handlers) == 1 and \
+        [D(x) for x in first.body] == [D(x) for x in want.body] and D(first.handlers[0].type) == P("AttributeError") and \
+        first.handlers[0].name is None and \
+        [D(x) for x in first.handlers[0].body if not (isinstance(x, ast.Expr) and logging_call(x.value))] == \
+        [D(want.handlers[0].body[1])]
+    if not ok:
+        cx.bad(fn, "the stream is no longer loaded by yaml.load(stream[, yaml.FullLoader])")
+    cx.ret = "specrec"
+    cx.define(fn, "spec", "jv")
+    cx.copies.add("spec")
+    lines = block(cx, body[1:], 1, ("fn",))
+    d1 = definition("YAMLSpecification.load_specification_from_stream; [spec_] is what yaml.load returned "
+                    "(Json.yaml_load of the document)",
+                    "Definition load_specification_gen (spec_ : jv) : res spec :=", lines)
+    return [d0, d1]
 
 
 # ----------------------------------------------------------------------------
@@ -1653,7 +1759,8 @@ def gen_add_parameter(tree):
 # ----------------------------------------------------------------------------
 HEADER = """(** The specification front end of maestrowf, statement by statement.
     GENERATED by translate/tcode_spec.py from /repo's current source
-    (yamlspecification.py: verify, verify_*, validate_schema, the consumers;
+    (yamlspecification.py: the loader, verify, verify_*, validate_schema, the
+    consumers;
     study.py: StudyStep, Study.add_step / __init__; dag.py: add_node and the
     guards of add_edge; studyenvironment.py: StudyEnvironment.add;
     parameters.py: ParameterGenerator.add_parameter) as compositions of the
@@ -1689,6 +1796,7 @@ def generate(repo):
     for m in ("verify_description", "_verify_variables", "_verify_sources", "_verify_dependencies",
               "verify_environment", "_verify_steps", "verify_study", "verify_parameters", "verify"):
         defs.append(gen_spec_method(need(SRC_SPEC, cls, ms, m), m))
+    defs.extend(gen_load(ms, cls))
     defs.append(gen_study_constants(study_tree))
     defs.append(gen_step_class(study_tree))
     defs.extend(gen_dag(dag_tree))
